@@ -158,9 +158,7 @@ type Once struct {
 }
 
 func (o *Once) Do(f func()) {
-	if o.done.Load() {
-		return
-	}
+	// no lock-free fast path: the mutex hand-over is what orders f's writes before later callers
 	o.m.Lock()
 	defer o.m.Unlock()
 	if !o.done.Load() {
